@@ -48,7 +48,7 @@
        Supervisor.v represents only the first (its Stop is atomic). The scripts of checks/c15.py
        never put Stop there (only in waiting states), so neither tie covers it. *)
 From Coq Require Import ZArith NArith List Bool Arith Lia.
-From LLRP Require Retry.NextWait Retry.RetryLoop Driver.Supervisor.
+From LLRP Require Retry.NextWait Retry.RetryLoop Retry.RetryLoopProofs Driver.Supervisor.
 Import ListNotations.
 
 Module S := LLRP.Driver.Supervisor.
@@ -122,18 +122,31 @@ Definition round_start (s : S.state) : Prop :=
   S.stopped s = false /\ S.connected s = false /\ S.round_fails s = 0 /\ S.lcl s = S.LFresh /\
   S.sdk_fails s = false.
 
-(* the Up report caused by the first good handshake of the phase, the Down report of the Down block *)
-Definition ups (s : S.state) (ds : list S.outcome) : list S.entry :=
-  if negb (S.isUp s) && existsb S.handshake_ok ds then [S.LReport S.Up true] else [].
-Definition down_entries (s : S.state) (ds : list S.outcome) : list S.entry :=
-  if S.isUp s || existsb S.handshake_ok ds then [S.LReport S.Down true] else [].
-
-Fixpoint reports_only (l : list S.entry) : list S.entry :=
-  match l with
-  | [] => []
-  | S.LReport o b :: l' => S.LReport o b :: reports_only l'
-  | _ :: l' => reports_only l'
+(* what a phase writes into the supervisor's history, as a function of the attempts it made
+   ([used]) and of how RetryWithCtx ended ([k]): the attempts, Stop if it was the context that ended
+   the phase, and then -- exactly when RetryWithCtx returned an *FError (exhausted or cancelled:
+   `case context.Canceled` never matches) -- the Down block *)
+Definition up_entry (up : bool) : list S.entry := if up then [] else [S.LReport S.Up true].
+Definition attempt_entries (a : S.addr) (up : bool) (d : S.outcome) : list S.entry :=
+  S.LDial a ::
+  match d with
+  | S.Refused | S.AcceptedSilent | S.BadHandshake => [S.LFail]
+  | S.HandshakeThenDropped => S.LHandshake :: up_entry up ++ [S.LFail]
+  | S.ClosedNormally => S.LHandshake :: up_entry up ++ [S.LNormal]
+  | S.Established => S.LHandshake :: up_entry up
   end.
+Fixpoint attempts_log (a : S.addr) (up : bool) (ds : list S.outcome) : list S.entry :=
+  match ds with
+  | [] => []
+  | d :: rest => attempt_entries a up d ++ attempts_log a (up || S.handshake_ok d) rest
+  end.
+Definition up_after (up : bool) (ds : list S.outcome) : bool := up || existsb S.handshake_ok ds.
+Definition returns_ferror (k : kind) : bool :=
+  match k with KExhausted | KCtx | KOtherErr => true | _ => false end.
+Definition phase_log (a : S.addr) (up : bool) (used : list S.outcome) (k : kind) : list S.entry :=
+  attempts_log a up used ++
+  (match k with KCtx => [S.LStop] | _ => [] end) ++
+  (if returns_ferror k && up_after up used then [S.LReport S.Down true] else []).
 
 (* ---------------------------------------------------------------- proofs *)
 Import S.
@@ -193,30 +206,30 @@ Proof. intros s (A & B & C & D & E). destruct s. cbn in *. now subst. Qed.
    all, when they are used up:  r = Quick.RetryWithCtx's run on the corresponding history. *)
 Lemma quick_phase_agrees : forall draw s ds stop force,
   round_start s -> forallb five ds = true -> (ds <> [] \/ stop = true) ->
+  (ds = [] -> in_slow s = false) ->   (* with no attempt ahead: about to dial, not in the slow wait *)
   let r := quick_result draw ds stop in
   let used := firstn (R.runs r) ds in
   let s' := run s (quick_events r ds force) in
-  (* as many dials as the retried func ran, at most maxConnAttempts, all to the current address *)
-  dials (log s') = dials (log s) ++ repeat (cur_addr s) (R.runs r) /\
-  (R.runs r <= max_conn_attempts) /\
-  (* the Down block runs exactly when the phase returns an *FError, as the last thing of the phase *)
+  (* the supervisor's history of the phase is the one determined by RetryWithCtx's run: as many
+     dials as the retried func ran, the Down block exactly when it returned an *FError *)
+  log s' = log s ++ phase_log (cur_addr s) (isUp s) used (kind_of r) /\
+  R.runs r <= max_conn_attempts /\
+  isUp s' = (if returns_ferror (kind_of r) then false else up_after (isUp s) used) /\
+  cur_addr s' = cur_addr s /\
+  (* what ends the phase and where the supervisor is afterwards *)
   match kind_of r with
-  | KNil =>          (* an attempt ended with ErrClientClosed: the next phase starts afresh, no slow wait *)
-      round_start s' /\ in_slow s' = false /\ isUp s' = true /\
-      reports_only (log s') = reports_only (log s) ++ ups s used
-  | KExhausted =>    (* maxConnAttempts recoverable failures: Down block, then the slow wait *)
-      (exists body, log s' = log s ++ body ++ down_entries s used /\ reports_only body = ups s used) /\
-      isUp s' = false /\ round_start s' /\ in_slow s' = true
-  | KCtx =>          (* Stop during the quick pause (or seen at entry): Down block, supervisor ends *)
-      (exists body, log s' = log s ++ body ++ down_entries s used /\ reports_only body = ups s used) /\
-      isUp s' = false /\ stop = true /\ stopped s' = true
+  | KNil =>          (* an attempt ended with ErrClientClosed: next phase afresh, no slow wait *)
+      round_start s' /\ in_slow s' = false
+  | KExhausted =>    (* maxConnAttempts recoverable failures: (Down block) then the slow wait *)
+      round_start s' /\ in_slow s' = true
+  | KCtx =>          (* Stop during the quick pause, or seen at entry: (Down block) and the end *)
+      stop = true /\ stopped s' = true
   | KMore =>         (* in the quick pause, nothing more has happened yet *)
-      stopped s' = false /\ round_fails s' = 1 /\ in_slow s' = false /\ stop = false /\
-      reports_only (log s') = reports_only (log s) ++ ups s used
+      stop = false /\ stopped s' = false /\ round_fails s' = 1 /\ in_slow s' = false
   | KOtherErr => False
   end.
 Proof.
-  intros draw s ds stop force RS F H. cbv zeta.
+  intros draw s ds stop force RS F H SL. cbv zeta.
   pose proof (quick_result_shape draw ds stop H) as Sh.
   unfold quick_events, ctx_ended.
   set (r := quick_result draw ds stop) in *.
@@ -224,19 +237,351 @@ Proof.
   assert (Hk : kind_of r = snd (quick_shape ds stop)) by (now rewrite <- Sh).
   rewrite Hr, Hk. clear Sh Hr Hk r.
   rewrite (round_start_inv s RS). set (up := isUp s). set (a := cur_addr s).
-  set (sl := in_slow s). set (lg := log s). clearbody up a sl lg. clear RS s.
-  unfold ups, down_entries, round_start.
+  set (sl := in_slow s) in *. set (lg := log s). clearbody up a sl lg. clear RS s.
+  unfold phase_log, round_start, up_after.
   destruct ds as [|d1 [|d2 rest]].
-  - destruct H as [H|H]; [congruence|]. subst stop. cbn [quick_shape fst snd firstn map List.app].
-    destruct up, force; cbn; repeat split; auto;
-      try (eexists; split; [rewrite <- ?app_assoc; reflexivity|reflexivity]).
-  - destruct d1; try discriminate; destruct stop, up, force; cbn;
-      repeat split; auto; try lia;
-      try (eexists; split; [rewrite <- ?app_assoc; cbn [List.app]; reflexivity|reflexivity]);
-      hist; rewrite ?app_nil_r; auto.
-  - cbn [forallb] in F. apply andb_true_iff in F. destruct F as [F1 F]. apply andb_true_iff in F. destruct F as [F2 _].
-    destruct d1; try discriminate; destruct d2; try discriminate; destruct up; cbn;
-      repeat split; auto; try lia;
-      try (eexists; split; [rewrite <- ?app_assoc; cbn [List.app]; reflexivity|reflexivity]);
-      hist; rewrite ?app_nil_r; auto.
+  - destruct H as [H|H]; [congruence|]. subst stop. rewrite (SL eq_refl). clear SL.
+    destruct up, force; cbn; rewrite <- ?app_assoc; cbn [List.app]; repeat split; auto; unfold max_conn_attempts; lia.
+  - clear SL. destruct d1; try discriminate; destruct stop, up, force, sl; cbn;
+      rewrite <- ?app_assoc; cbn [List.app]; repeat split; auto; unfold max_conn_attempts; lia.
+  - cbn [forallb] in F. apply andb_true_iff in F. destruct F as [F1 F].
+    apply andb_true_iff in F. destruct F as [F2 _]. clear SL.
+    destruct d1; try discriminate; destruct d2; try discriminate; destruct up, sl; cbn;
+      rewrite <- ?app_assoc; cbn [List.app]; repeat split; auto; unfold max_conn_attempts; lia.
+Qed.
+
+(* ---------------------------------------------------------------- the slow phase *)
+(* a finished round: dial outcomes that make up exactly one complete quick phase *)
+Definition round_kind (rd : list outcome) : kind := snd (quick_shape rd false).
+Definition finished (rd : list outcome) : bool :=
+  forallb five rd && negb (Nat.eqb (length rd) 0) && Nat.eqb (fst (quick_shape rd false)) (length rd) &&
+  match round_kind rd with KNil | KExhausted => true | _ => false end.
+
+(* what the slow func returns for it *)
+Definition round_out (draw : nat -> Z) (rd : list outcome) : R.outcome :=
+  scb (quick_result draw rd false).
+
+(* history of one Slow.RetryWithCtx(ctx, Forever, slow func) whose calls of the slow func are the
+   rounds rds; Stop (if any) arrives during the slow pause after the last of them *)
+Definition slow_evs (draw : nat -> Z) (rds : list (list outcome)) (stop : bool) : list R.wait_ev :=
+  map (fun rd => R.WRun (round_out draw rd)) (tl rds) ++ stop_ev stop.
+Definition slow_result (draw draw' : nat -> Z) (rds : list (list outcome)) (stop : bool) : R.result :=
+  R.retry_run_cfg slow_cfg forever keep_errs None (round_out draw (hd [] rds))
+                  (mk_ts draw' 0 (slow_evs draw rds stop)).
+
+(* the slow phase read off the rounds: it goes on until a round ends with nil *)
+Fixpoint slow_shape (ks : list kind) (stop : bool) : nat * kind :=
+  match ks with
+  | [] => (0, if stop then KCtx else KMore)
+  | KNil :: _ => (1, KNil)
+  | _ :: rest => let '(n, k) := slow_shape rest stop in (S n, k)
+  end.
+
+Lemma scb_kind : forall r, scb r = match kind_of r with KNil => R.Ok | _ => R.Rec 0 end.
+Proof.
+  intros r. unfold scb, kind_of. destruct (R.res r) as [|fe|fe]; auto.
+  destruct (R.main fe) as [| | |[|]|]; auto.
+Qed.
+
+Lemma finished_nonempty : forall rd, finished rd = true -> rd <> [].
+Proof. intros [|d rd] H; [discriminate|congruence]. Qed.
+
+Lemma round_out_kind : forall draw rd, finished rd = true ->
+  round_out draw rd = match round_kind rd with KNil => R.Ok | _ => R.Rec 0 end.
+Proof.
+  intros draw rd F. unfold round_out. rewrite scb_kind.
+  pose proof (quick_result_shape draw rd false (or_introl (finished_nonempty rd F))) as Sh.
+  unfold round_kind. now rewrite <- Sh.
+Qed.
+
+Definition out_of_kind (k : kind) : R.outcome := match k with KNil => R.Ok | _ => R.Rec 0 end.
+
+Lemma loop_forever_shape : forall ks stop re rn,
+  let r := R.loop forever re rn (map (fun k => R.StRun (out_of_kind k)) ks ++ map R.ev_step (stop_ev stop)) in
+  R.runs r = length rn + fst (slow_shape ks stop) /\ kind_of r = snd (slow_shape ks stop).
+Proof.
+  induction ks as [|k ks IH]; intros stop re rn; cbv zeta.
+  - destruct stop; cbn; split; auto; lia.
+  - cbn [map List.app]. rewrite LLRP.Retry.RetryLoopProofs.loop_unfold.
+    unfold LLRP.Retry.RetryLoopProofs.cond. change (forever =? -1)%Z with true. cbn [orb].
+    destruct k; cbn [out_of_kind slow_shape].
+    1: { cbn. rewrite app_length. cbn. split; auto; lia. }
+    all: specialize (IH stop (R.add_err re (R.EUser 0)) (rn ++ [R.Rec 0])); cbv zeta in IH;
+      destruct IH as [A B]; destruct (slow_shape ks stop) as [n k'] eqn:E; cbn [fst snd] in *;
+      rewrite A, B, app_length; cbn; split; auto; lia.
+Qed.
+
+Lemma slow_result_shape : forall draw draw' rd rds stop,
+  forallb finished (rd :: rds) = true ->
+  let r := slow_result draw draw' (rd :: rds) stop in
+  (R.runs r, kind_of r) = slow_shape (map round_kind (rd :: rds)) stop.
+Proof.
+  intros draw draw' rd rds stop F. cbv zeta.
+  cbn [forallb] in F. apply andb_true_iff in F. destruct F as [F1 F2].
+  unfold slow_result, R.retry_run_cfg. rewrite to_steps_nodeadline.
+  unfold slow_evs. cbn [hd tl map]. rewrite (round_out_kind draw rd F1).
+  destruct (round_kind rd) eqn:K; cbn [slow_shape].
+  1: reflexivity.
+  all: cbn [R.retry_run]; rewrite map_app, map_map;
+    rewrite (map_ext_in (fun x => R.ev_step (R.WRun (round_out draw x)))
+                        (fun x => R.StRun (out_of_kind (round_kind x))));
+    [|intros x Hx; cbn [R.ev_step]; rewrite round_out_kind; auto;
+      rewrite forallb_forall in F2; auto];
+    rewrite <- (map_map round_kind (fun k => R.StRun (out_of_kind k)));
+    pose proof (loop_forever_shape (map round_kind rds) stop (R.new_ferror (R.EUser 0) keep_errs) [R.Rec 0]) as L;
+    cbv zeta in L; destruct L as [A B];
+    destruct (slow_shape (map round_kind rds) stop) as [n k]; cbn [fst snd length] in *;
+    now rewrite A, B.
+Qed.
+
+(* one finished round, seen from the supervisor *)
+Lemma round_step : forall draw s rd, round_start s -> finished rd = true ->
+  let s' := run s (map Dial rd) in
+  log s' = log s ++ phase_log (cur_addr s) (isUp s) rd (round_kind rd) /\
+  isUp s' = (if returns_ferror (round_kind rd) then false else up_after (isUp s) rd) /\
+  cur_addr s' = cur_addr s /\ round_start s' /\
+  in_slow s' = (match round_kind rd with KNil => false | _ => true end) /\
+  kind_of (quick_result draw rd false) = round_kind rd /\ R.runs (quick_result draw rd false) = length rd.
+Proof.
+  intros draw s rd RS F. cbv zeta.
+  pose proof (finished_nonempty rd F) as NE.
+  unfold finished in F. repeat (apply andb_true_iff in F; destruct F as [F ?]).
+  pose proof (quick_result_shape draw rd false (or_introl NE)) as Sh.
+  assert (Hr : R.runs (quick_result draw rd false) = length rd).
+  { apply Nat.eqb_eq in H0. rewrite <- H0. now rewrite <- Sh. }
+  assert (Hk : kind_of (quick_result draw rd false) = round_kind rd).
+  { unfold round_kind. now rewrite <- Sh. }
+  pose proof (quick_phase_agrees draw s rd false false RS F (or_introl NE) (fun E => False_ind _ (NE E))) as Q.
+  cbv zeta in Q. unfold quick_events, ctx_ended in Q. rewrite Hr, Hk, firstn_all in Q.
+  destruct (round_kind rd) eqn:K; try discriminate; rewrite app_nil_r in Q;
+    destruct Q as (A & _ & B & C & D & E); repeat split; auto; apply D.
+Qed.
+
+Fixpoint rounds_log (a : addr) (up : bool) (rds : list (list outcome)) : list entry :=
+  match rds with
+  | [] => []
+  | rd :: rest =>
+    phase_log a up rd (round_kind rd) ++
+    rounds_log a (if returns_ferror (round_kind rd) then false else up_after up rd) rest
+  end.
+Fixpoint rounds_up (up : bool) (rds : list (list outcome)) : bool :=
+  match rds with
+  | [] => up
+  | rd :: rest => rounds_up (if returns_ferror (round_kind rd) then false else up_after up rd) rest
+  end.
+Definition rounds_events (rds : list (list outcome)) : list event := concat (map (map Dial) rds).
+
+Lemma rounds_run : forall rds s, round_start s -> forallb finished rds = true ->
+  let s' := run s (rounds_events rds) in
+  log s' = log s ++ rounds_log (cur_addr s) (isUp s) rds /\
+  isUp s' = rounds_up (isUp s) rds /\ cur_addr s' = cur_addr s /\ round_start s' /\
+  (rds <> [] -> in_slow s' = match round_kind (last rds []) with KNil => false | _ => true end).
+Proof.
+  induction rds as [|rd rds IH]; intros s RS F; cbv zeta.
+  - cbn. rewrite app_nil_r. repeat split; auto; try apply RS. congruence.
+  - cbn [forallb] in F. apply andb_true_iff in F. destruct F as [F1 F2].
+    unfold rounds_events. cbn [map concat]. rewrite run_app.
+    destruct (round_step (fun _ => 0%Z) s rd RS F1) as (A & B & C & D & E & _).
+    set (s1 := run s (map Dial rd)) in *.
+    destruct (IH s1 D F2) as (A' & B' & C' & D' & E'). fold (rounds_events rds).
+    cbn [rounds_log rounds_up]. rewrite A', B', C'. rewrite A, B, C. rewrite <- app_assoc.
+    split; [reflexivity|]. split; [reflexivity|]. split; [reflexivity|]. split; [exact D'|].
+    intros _. destruct rds as [|rd2 rds'].
+    + cbn. exact E.
+    + change (last (rd :: rd2 :: rds') []) with (last (rd2 :: rds') []). apply E'. congruence.
+Qed.
+
+Lemma in_firstn : forall (A : Type) n (l : list A) x, In x (firstn n l) -> In x l.
+Proof.
+  induction n as [|n IH]; intros [|y l] x H; cbn in *; auto; try contradiction.
+  destruct H as [H|H]; auto.
+Qed.
+
+Definition good_kind (k : kind) : Prop := k = KNil \/ k = KExhausted.
+
+Lemma slow_shape_facts : forall ks stop, ks <> [] -> Forall good_kind ks ->
+  let n := fst (slow_shape ks stop) in let k := snd (slow_shape ks stop) in
+  1 <= n <= length ks /\
+  match k with
+  | KNil => last (firstn n ks) KMore = KNil
+  | KCtx => stop = true /\ n = length ks /\ last ks KMore = KExhausted
+  | KMore => stop = false /\ n = length ks /\ last ks KMore = KExhausted
+  | _ => False
+  end.
+Proof.
+  induction ks as [|k1 ks IH]; intros stop NE G; [congruence|]. cbv zeta.
+  inversion G as [|? ? G1 G2]; subst.
+  destruct G1 as [-> | ->]; cbn [slow_shape].
+  - cbn. split; auto. lia.
+  - destruct ks as [|k2 ks'].
+    + destruct stop; cbn; repeat split; auto.
+    + assert (NE' : k2 :: ks' <> []) by congruence.
+      specialize (IH stop NE' G2). cbv zeta in IH.
+      destruct (slow_shape (k2 :: ks') stop) as [n k] eqn:E. cbn [fst snd] in *.
+      destruct IH as [[L1 L2] IH]. split; [cbn [length] in *; lia|].
+      destruct k; auto.
+      * destruct n as [|n]; [lia|]. change (firstn (S (S n)) (KExhausted :: k2 :: ks'))
+          with (KExhausted :: firstn (S n) (k2 :: ks')).
+        cbn [firstn] in *. exact IH.
+      * destruct IH as (A & B & C). repeat split; auto. cbn [length] in *; lia.
+      * destruct IH as (A & B & C). repeat split; auto. cbn [length] in *; lia.
+Qed.
+
+Lemma last_map_kind : forall (rds : list (list outcome)), rds <> [] ->
+  last (map round_kind rds) KMore = round_kind (last rds []).
+Proof.
+  induction rds as [|rd rds IH]; intros NE; [congruence|].
+  destruct rds as [|rd2 rds']; [reflexivity|].
+  change (last (map round_kind (rd2 :: rds')) KMore = round_kind (last (rd2 :: rds') [])).
+  apply IH. congruence.
+Qed.
+
+Lemma finished_good : forall rd, finished rd = true -> good_kind (round_kind rd).
+Proof.
+  intros rd F. unfold finished in F. apply andb_true_iff in F. destruct F as [_ F].
+  unfold good_kind. destruct (round_kind rd); auto; discriminate.
+Qed.
+
+Lemma stop_in_slow_wait : forall s force, round_start s -> in_slow s = true ->
+  let s' := step s (Stop force) in
+  log s' = log s ++ [LStop] /\ stopped s' = true /\ isUp s' = isUp s.
+Proof.
+  intros s force RS SL. rewrite (round_start_inv s RS), SL. destruct force; cbn; auto.
+Qed.
+
+(* THE SLOW PHASE.  From any state at the start of a round, with the finished rounds
+   rd :: rds ahead (as many as one likes) and Stop arriving, if at all, in the slow wait after
+   the last of them: R = Slow.RetryWithCtx(ctx, Forever, slow func) on the corresponding history,
+   the slow func's results being those of the quick phases ([round_out]). *)
+Lemma slow_phase_agrees : forall draw draw' s rd rds stop force,
+  round_start s -> forallb finished (rd :: rds) = true ->
+  let r := slow_result draw draw' (rd :: rds) stop in
+  let done := firstn (R.runs r) (rd :: rds) in
+  let s' := run s (rounds_events done ++ (if ctx_ended r then [Stop force] else [])) in
+  (* the supervisor goes through exactly the rounds in which RetryWithCtx called the slow func *)
+  log s' = log s ++ rounds_log (cur_addr s) (isUp s) done ++ (if ctx_ended r then [LStop] else []) /\
+  1 <= R.runs r <= length (rd :: rds) /\
+  isUp s' = rounds_up (isUp s) done /\
+  match kind_of r with
+  | KNil =>    (* a round ended with nil: Slow returns nil, the outer loop starts both policies afresh *)
+      round_start s' /\ in_slow s' = false /\ round_kind (last done []) = KNil
+  | KMore =>   (* every round so far exhausted its attempts: waiting in the slow pause, for ever if need be *)
+      stop = false /\ R.runs r = length (rd :: rds) /\ round_start s' /\ in_slow s' = true
+  | KCtx =>    (* Stop during the slow pause: no Down block, the supervisor ends *)
+      stop = true /\ R.runs r = length (rd :: rds) /\ stopped s' = true
+  | KExhausted | KOtherErr => False   (* retry.Forever: never "retries exceeded" *)
+  end.
+Proof.
+  intros draw draw' s rd rds stop force RS F. cbv zeta.
+  pose proof (slow_result_shape draw draw' rd rds stop F) as Sh. cbv zeta in Sh.
+  set (r := slow_result draw draw' (rd :: rds) stop) in *.
+  assert (G : Forall good_kind (map round_kind (rd :: rds))).
+  { apply Forall_forall. intros k Hk. apply in_map_iff in Hk. destruct Hk as [x [<- Hx]].
+    apply finished_good. rewrite forallb_forall in F. auto. }
+  assert (NE : map round_kind (rd :: rds) <> []) by (cbn; congruence).
+  pose proof (slow_shape_facts _ stop NE G) as SF. cbv zeta in SF. rewrite <- Sh in SF.
+  cbn [fst snd] in SF. rewrite map_length in SF. destruct SF as [Hn SF].
+  set (n := R.runs r) in *. set (done := firstn n (rd :: rds)).
+  assert (Fd : forallb finished done = true).
+  { apply forallb_forall. intros x Hx. rewrite forallb_forall in F. apply F.
+    eapply in_firstn. exact Hx. }
+  assert (NEd : done <> []).
+  { unfold done. destruct n; [lia|]. cbn. congruence. }
+  pose proof (rounds_run done s RS Fd) as RR. cbv zeta in RR.
+  destruct RR as (A & B & C & D & E). specialize (E NEd).
+  rewrite run_app. set (s1 := run s (rounds_events done)) in *.
+  assert (LK : last (firstn n (map round_kind (rd :: rds))) KMore = round_kind (last done [])).
+  { rewrite firstn_map. fold done. apply last_map_kind; auto. }
+  unfold ctx_ended. destruct (kind_of r) eqn:K; try contradiction.
+  - rewrite LK in SF. cbn [run fold_left]. rewrite app_nil_r. rewrite SF in E.
+    repeat split; auto; try apply D; lia.
+  - destruct SF as (S1 & S2 & S3). rewrite firstn_all2 in LK by (rewrite map_length; cbn [length] in *; lia).
+    rewrite S3 in LK. rewrite <- LK in E.
+    destruct (stop_in_slow_wait s1 force D E) as (X & Y & Z). cbn [run fold_left].
+    rewrite X, A, <- app_assoc, Z. repeat split; auto; lia.
+  - destruct SF as (S1 & S2 & S3). rewrite firstn_all2 in LK by (rewrite map_length; cbn [length] in *; lia).
+    rewrite S3 in LK. rewrite <- LK in E. cbn [run fold_left]. rewrite app_nil_r.
+    repeat split; auto; try apply D; lia.
+Qed.
+
+(* ---------------------------------------------------------------- the outer loop, and the corner *)
+(* the outer `for ctx.Err() == nil` starts a slow phase in a state like the initial one; that is
+   the state both phase lemmas start from and the one a slow phase that returned nil ends in *)
+Lemma init_round_start : forall up0 a0, round_start (init up0 a0) /\ in_slow (init up0 a0) = false.
+Proof. intros. unfold round_start. cbn. repeat split; auto. Qed.
+
+(* Stop while a connection is established: the attempt returns ErrClientClosed = nil; the quick
+   phase and the slow phase return nil at their FIRST call (whatever else their histories hold),
+   the outer loop sees the cancellation: no Down block, no further dial *)
+Lemma connected_stop_agrees : forall ts ts' s force, round_start s ->
+  let s' := run s [Dial Established; Stop force] in
+  let q := R.retry_run_cfg quick_cfg quick_retries keep_errs None (cb ClosedNormally) ts in
+  let sl := R.retry_run_cfg slow_cfg forever keep_errs None (scb q) ts' in
+  kind_of q = KNil /\ R.runs q = 1 /\ kind_of sl = KNil /\ R.runs sl = 1 /\
+  log s' = log s ++ LDial (cur_addr s) :: LHandshake :: up_entry (isUp s) ++ [LStop; LNormal] /\
+  stopped s' = true /\ isUp s' = true /\ dial_enabled s' = false.
+Proof.
+  intros ts ts' s force RS. cbv zeta. rewrite (round_start_inv s RS).
+  unfold R.retry_run_cfg. cbn [cb R.retry_run scb R.res].
+  destruct (isUp s), (in_slow s), force; cbn; rewrite <- ?app_assoc; cbn [List.app];
+    repeat split; auto.
+Qed.
+
+(* FINDING, both halves.  (1) In the supervisor model a Stop in the "about to dial" state runs the
+   Down block; as a RetryLoop history: the quick phase is entered with the context already ended
+   (quick_phase_agrees with ds = []). *)
+Lemma about_to_dial_stop_in_supervisor : forall s force, round_start s -> in_slow s = false ->
+  log (step s (Stop force)) =
+  log s ++ LStop :: (if isUp s then [LReport Down true] else []).
+Proof.
+  intros s force RS SL. rewrite (round_start_inv s RS), SL.
+  destruct (isUp s), force; cbn; rewrite <- ?app_assoc; reflexivity.
+Qed.
+(* (2) In RetryLoop, when the cancellation is there before Slow.RetryWithCtx is entered (or before
+   the outer loop's check), the slow func -- hence the quick phase and the Down block -- is never
+   called. Supervisor.v has no transition for this behaviour of the Go code. *)
+Lemma slow_entry_cancelled_no_down : forall first ts,
+  let r := R.retry_run_cfg slow_cfg forever keep_errs (Some R.Canceled) first ts in
+  R.runs r = 0 /\ kind_of r = KCtx.
+Proof. intros. unfold R.retry_run_cfg. cbn. auto. Qed.
+
+(* ---------------------------------------------------------------- headline *)
+Lemma supervisor_retry_agrees :
+  (* quick phase *)
+  (forall draw s ds stop force,
+    round_start s -> forallb five ds = true -> (ds <> [] \/ stop = true) ->
+    (ds = [] -> in_slow s = false) ->
+    let r := quick_result draw ds stop in
+    let used := firstn (R.runs r) ds in
+    let s' := run s (quick_events r ds force) in
+    log s' = log s ++ phase_log (cur_addr s) (isUp s) used (kind_of r) /\
+    R.runs r <= max_conn_attempts /\
+    isUp s' = (if returns_ferror (kind_of r) then false else up_after (isUp s) used) /\
+    cur_addr s' = cur_addr s /\
+    match kind_of r with
+    | KNil => round_start s' /\ in_slow s' = false
+    | KExhausted => round_start s' /\ in_slow s' = true
+    | KCtx => stop = true /\ stopped s' = true
+    | KMore => stop = false /\ stopped s' = false /\ round_fails s' = 1 /\ in_slow s' = false
+    | KOtherErr => False
+    end) /\
+  (* slow phase *)
+  (forall draw draw' s rd rds stop force,
+    round_start s -> forallb finished (rd :: rds) = true ->
+    let r := slow_result draw draw' (rd :: rds) stop in
+    let done := firstn (R.runs r) (rd :: rds) in
+    let s' := run s (rounds_events done ++ (if ctx_ended r then [Stop force] else [])) in
+    log s' = log s ++ rounds_log (cur_addr s) (isUp s) done ++ (if ctx_ended r then [LStop] else []) /\
+    1 <= R.runs r <= length (rd :: rds) /\
+    isUp s' = rounds_up (isUp s) done /\
+    match kind_of r with
+    | KNil => round_start s' /\ in_slow s' = false /\ round_kind (last done []) = KNil
+    | KMore => stop = false /\ R.runs r = length (rd :: rds) /\ round_start s' /\ in_slow s' = true
+    | KCtx => stop = true /\ R.runs r = length (rd :: rds) /\ stopped s' = true
+    | KExhausted | KOtherErr => False
+    end) /\
+  (* outer loop: it starts in such a state *)
+  (forall up0 a0, round_start (init up0 a0) /\ in_slow (init up0 a0) = false).
+Proof.
+  split; [exact quick_phase_agrees|]. split; [exact slow_phase_agrees|exact init_round_start].
 Qed.
